@@ -1,17 +1,60 @@
-"""C14 QED x QCD kernels reduce to QCD kernels at alpha_em = 0 (kernel-level clause)."""
+"""C14 QED x QCD kernels reduce to QCD kernels at alpha_em = 0 (kernel-level clause by law plan;
+end-to-end clause by convergence class on real solves, spec QedLimit)."""
+import itertools
+import multiprocessing as mp
+
+from harness.core import MachineryError
 
 from harness.laws import c14, engine
 
 META = {
     "id": "C14",
     "level": "exploration",
-    "technique": "TLA+ law plan (Laws.tla cells enumerated by TLC) + measurement of the real un-jitted QED and QCD kernels on the same coupling steps + TLC trace validation (LawsTrace)",
-    "text": "Kernel-level clause only. Random QCD towers are embedded in QED grids (index map Sigma->2, g->0 of the basis (g, photon, Sigma, Sigma_Delta); non-singlet tower on Sigma_Delta / on the valence diagonal; all a_em^j, j>=1, entries filled with random numbers), a_em = 0, QCD order 1-4, QED order 1-2, nf 3-6, 2-8 steps: the QED non-singlet kernel equals the product of the QCD exact kernels over the same steps; the gluon/Sigma block of the QED singlet kernel equals the QCD eko_iterate on the same steps; the photon entry is 1 and decoupled; the Sigma_Delta / valence entries equal the (1x1 block of the) QCD iterated kernel on the same steps (class rounding) and converge to the exact non-singlet kernel when the steps are doubled (exponent >= 1.58; midpoint rule gives 2).",
-    "note": "The end-to-end clause (alpha_em -> 0 on operators, iterations 10-160) is an accuracy statement against a discretisation error and is not decided (DESIGN 6). Clean residuals <= 1e-14 (required <= 1e-10; a wrong index in the embedding or a beta term that survives a_em = 0 gives >= 1e-3); convergence exponents 1.91-2.00. At QCD order 1 the reference is eko_iterate itself (the QCD dispatcher uses the closed LO form, which differs from the stepwise product by the discretisation error).",
+    "technique": "TLA+ spec QedLimit (cells order x QED order x path shape, required convergence class; real solves with real quadrature on a 3-point grid judged by TLC trace spec QedLimitTrace with a coverage record) + TLA+ law plan (Laws.tla cells enumerated by TLC) + measurement of the real un-jitted QED and QCD kernels on the same coupling steps + TLC trace validation (LawsTrace)",
+    "text": "End-to-end clause: in all 30 cells of QedLimit (QCD order 1-3, QED order 1-2; one segment in its natural patch, one segment whose nf is kept below / above the natural one of the scales it runs through, threshold crossings up and down) the operator with alpha_em = 1e-9 and 4 / 16 iterations is compared on the 13 x 13 parton channels with the pure-QCD operator (closed form at LO, 64 iterations beyond): the gap must shrink at least like 1/n (measured: 1/n^2, exponent 1.99) or have reached the alpha_em floor. Kernel-level clause: random QCD towers are embedded in QED grids (index map Sigma->2, g->0 of the basis (g, photon, Sigma, Sigma_Delta); non-singlet tower on Sigma_Delta / on the valence diagonal; all a_em^j, j>=1, entries filled with random numbers), a_em = 0, QCD order 1-4, QED order 1-2, nf 3-6, 2-8 steps: the QED non-singlet kernel equals the product of the QCD exact kernels over the same steps; the gluon/Sigma block of the QED singlet kernel equals the QCD eko_iterate on the same steps; the photon entry is 1 and decoupled; the Sigma_Delta / valence entries equal the (1x1 block of the) QCD iterated kernel on the same steps (class rounding) and converge to the exact non-singlet kernel when the steps are doubled (exponent >= 1.58; midpoint rule gives 2).",
+    "note": "The end-to-end clause is decided as a convergence CLASS (base-4 exponent of the gap between 4 and 16 iterations, x100, and the decade of the gap), not as an accuracy: clean 199, a coupling step list that leaves the RG trajectory of the segment (e.g. mid-step couplings taken with the natural instead of the segment nf) stalls at 0-50. Real quadrature is used here: the 4-node shim is NOT valid for this comparison because the QED Sigma_Delta sector is integrated on the singlet contour and the QCD non-singlet on its own one, which agree only for converged integrals. Kernel clause: clean residuals <= 1e-14 (required <= 1e-10; a wrong index in the embedding or a beta term that survives a_em = 0 gives >= 1e-3); convergence exponents 1.91-2.00. At QCD order 1 the reference is eko_iterate itself (the QCD dispatcher uses the closed LO form, which differs from the stepwise product by the discretisation error).",
     "design_ref": "1 (mode L), 4.11, 5 C14",
     "rule": "cell = (clause, sector, order, QED order, nf); 8 (quick) / 60 (thorough) seeded grids, coupling pairs and step counts per cell; worst residual / smallest exponent recorded",
 }
 
 
+def _e2e(chk):
+    from harness.drivers import qedlimit
+
+    cells = [dict(order=o, qed=q, shape=s) for o, q, s in itertools.product((1, 2, 3), (1, 2), sorted(qedlimit.SHAPES))]
+    with mp.get_context("fork").Pool(16) as pool:
+        recs = pool.map(qedlimit.limit_cell, sorted(cells, key=lambda c: -c["order"]), chunksize=1)
+    for r in recs:
+        chk.count(1, ("limit", tuple(sorted(r["cell"].items()))), nontrivial=r["err"] == "")
+    chk.sample(recs[0])
+    chk.note("e2e_exponents_x100", {f"{r['cell']['order']}-{r['cell']['qed']}-{r['cell']['shape']}": [r["e100"], r["gaps"]] for r in recs})
+    trace = recs + [{"ev": "coverage", "cells": cells}]
+    res = chk.tlc("QedLimitTrace", "QedLimitTrace.cfg", trace=trace, workers=1, label="end-to-end cells judged, coverage checked")
+    if res.violated or not res.completed:
+        raise MachineryError(f"QedLimitTrace not accepted: {res.out[-2000:]}")
+    chk.cov["traces_validated_against_impl"] += len(recs)
+    seen = set()
+    for t in res.printed("BAD"):
+        rec = trace[t[1] - 1]
+        v = t[2]
+        if v.startswith("C14:"):
+            c = rec["cell"]
+            fp = f"{v} order={c['order']} qed={c['qed']} shape={c['shape']}"
+            if fp not in seen:
+                seen.add(fp)
+                chk.violation(fp, f"{v}: gaps at 4 / 16 iterations {rec['gaps']} (exponent x100 = {rec['e100']})", rec)
+        elif v.startswith("COVERAGE"):
+            raise MachineryError("end-to-end cells not exhausted")
+        elif v.startswith("CONF:solve-raised"):
+            raise MachineryError(f"measurement failed: {rec}")
+        else:
+            chk.diag(f"{v}: {rec['cell']}")
+    bad = [dict(recs[0], e100=20, dec16=3)]
+    r2 = chk.tlc("QedLimitTrace", "QedLimitTrace.cfg", trace=bad, workers=1, label="corrupted end-to-end record (must be rejected)")
+    if not [t for t in r2.printed("BAD") if t[2].startswith("C14:")]:
+        raise MachineryError("binding demonstration (end-to-end) failed")
+
+
 def run(chk):
+    _e2e(chk)
     engine.run_law(chk, "C14", c14.measure, npts_quick=8, npts_thorough=60, switches=("Strict",))
